@@ -82,6 +82,27 @@ def video_case(draw, tier="quick", recovery=False):
             "yield_send": draw(st.sampled_from([False, False, True]))}
 
 
+@st.composite
+def outage_case(draw, tier="quick"):
+    """A long stream with one outage of 90-135 packets - around the jitter buffer's restart threshold (100) and the NACK /
+    retransmission window (128) - after which everything is delivered, the retransmissions the receiver asks for included."""
+    nframes = draw(st.integers(45, 70 if tier == "quick" else 110))
+    sizes = [draw(st.sampled_from([2, 3, 5, 8, 8])) for _ in range(nframes)]
+    total = sum(sizes)
+    before = draw(st.integers(5, 40))
+    outage = draw(st.integers(90, 135))
+    media = [["d", 0]] * before + [["x"]] * outage
+    # afterwards: delivered, with the odd loss or delay; the list also covers the retransmissions
+    tail = draw(st.lists(st.sampled_from([["d", 0]] * 8 + [["x"], ["d", 20]]), min_size=60, max_size=60))
+    media += tail + [["d", 0]] * (total + 200)
+    case = {"codec": draw(st.sampled_from(["VP8", "H264"])), "rtx": draw(st.booleans()), "recovery": False,
+            "seq0": draw(st.sampled_from([0, 1000, 65535 - 40, 65535 - before - outage // 2, 32767])),
+            "rtxseq0": draw(st.sampled_from([0, 32760])), "ts0": draw(st.sampled_from([0, 12345, 2**32 - 3000 * 30])),
+            "sizes": sizes, "media": media, "feedback": [], "fill": draw(st.integers(0, 255)),
+            "yield_send": draw(st.sampled_from([False, False, True]))}
+    return case
+
+
 def frame_bytes(codec: str, index: int, npackets: int, fill: int) -> bytes:
     """Unique content, sized to packetise into exactly `npackets` RTP packets."""
     if codec == "VP8":
@@ -217,6 +238,7 @@ class Run:
         self.first_media_done = False
         self.first_ts = None
         self.n_scheduled = 0
+        self.restarted_on_old_packet = False
 
     # the link asks for the fate of one SRTP/SRTCP datagram
     def fate_for(self, side: int, data: bytes):
@@ -285,6 +307,21 @@ class Run:
         receiver._track = RX.RemoteStreamTrack(kind="video")
         receiver._set_rtcp_ssrc(0x0BADCAFE)
         receiver._RTCRtpReceiver__decoder_queue = RecQueue(self.log)
+        # observed for the known finding: the jitter buffer starting over on a packet of this very stream that arrives 100 or
+        # more positions behind what it holds (in this harness the stream never restarts, so every such packet is a late
+        # original, a retransmission the receiver asked for, or a duplicate of one)
+        jb = receiver._RTCRtpReceiver__jitter_buffer
+        orig_jb_add = jb.add
+
+        def jb_add(packet, *a, **kw):
+            if jb._origin is not None:
+                delta = (packet.sequence_number - jb._origin) & 0xFFFF
+                misorder = (jb._origin - packet.sequence_number) & 0xFFFF
+                if misorder < delta and misorder >= 100:
+                    self.restarted_on_old_packet = True
+            return orig_jb_add(packet, *a, **kw)
+
+        jb.add = jb_add  # type: ignore[method-assign]
         # taps on plaintext
         orig_a_send = ta._send_rtp
 
@@ -502,7 +539,9 @@ def run_video(case: dict) -> Outcome:
     if r.problem:
         if r.problem[0].startswith("harness-"):
             raise RuntimeError(r.problem[1])
-        return Outcome(r.problem[1], r.problem[0], nt, cl)
+        return Outcome(r.problem[1], r.problem[0], nt, cl, info={"restarted_on_old_packet": r.restarted_on_old_packet})
+    if r.restarted_on_old_packet:
+        cl = tuple(sorted(set(cl) | {"buffer-restarted-on-old-packet"}))
     return Outcome(None, None, nt, cl)
 
 
@@ -524,7 +563,13 @@ CHECK = Check(
     families=[
         Family("safety", run_video, lambda tier: video_case(tier, recovery=False), quick=700, thorough=30000, min_shard=10),
         Family("recovery", run_video, lambda tier: video_case(tier, recovery=True), quick=700, thorough=30000, min_shard=10),
+        Family("outage", run_video, outage_case, quick=400, thorough=15000, min_shard=10),
     ],
+    recognisers={
+        # what goes wrong once the buffer has started over on old packets: old frames (or their tails) come out after
+        # newer ones, or a frame is handed over a second time
+        "restart-on-late-retransmission": lambda fam, case, out: out.kind in ("frame-order", "frame-tail") and bool(out.info.get("restarted_on_old_packet")),
+    },
     floor=100,
     assumptions=["OpenSSL/libsrtp trusted; the decoder thread is replaced by a tap (the property's own hook note); frames are recorded "
                  "when they are put on the receiver's decoder queue"],
